@@ -63,7 +63,7 @@ def _requests(g, size, buf):
     pts = boundaries(size, bs, buf)
     if g.get("big"):
         # cost follows bytes returned: all short requests (<= 1 block + 2 sectors) plus a few whole/multi-block ones
-        reqs = request_pairs(pts, bs + 1024)
+        reqs = request_pairs(pts, 2 * buf + 1024)
         reqs += [(0, size), (0, 2 * bs), (bs // 2, 2 * bs), (bs - 512, bs + 1024), (bs, size), (1, size - 2),
                  (size - bs - 512, bs + 512), (bs + 512, 2 * bs)]
         return reqs
